@@ -91,3 +91,11 @@ claim('C05',
       'Small shapes (image <= 2x3 quick / 3x3 thorough, mask <= 2x2 / 3x3); reals model; numpy dtype promotion only in the executed table.',
       'symbolic execution of the real Python + SMT (z3 LIRA) with solver-enumerated integer placements',
       'DESIGN.md section 5 C05')
+claim('C08',
+      'Bounded symbolic check of &, |, ^ and CompoundPixelRegion.contains against or/and/xor of the independent operand '
+      'oracles (operands circle / ellipse / rectangle with arbitrary real parameters and angles; include flags on '
+      'operands and on the compound; nesting to depth 3), annulus area = outer - inner for the three annulus classes; '
+      'thorough tier: centre mask of a compound = operator applied to the operand masks on the union box, cell by cell.',
+      'Reals model; positions on an operand boundary excepted; compound masks bounded to small operands.',
+      'symbolic execution of the real Python + SMT (z3 NRA)',
+      'DESIGN.md section 5 C08')
